@@ -48,6 +48,8 @@ Inductive term :=
 | TyLen (k : Z)                    (* a type-level length with <_ as Unsigned>::USIZE = k *)
 | ConstPath (k : Z)                (* a path naming a `const _: usize = k` item: it parses as a
                                       type AND as an expression *)
+| CfgOut (t : term)                (* #[cfg(any())] t : an expression fragment whose attribute compiles it OUT of
+                                      the list position it ends up in (array / vec! literal elements) *)
 (* what the transcribers are made of *)
 | MV (x : mvar)                    (* $x at the current repetition depth *)
 | Usize (ty : term)                (* <ty as $crate::typenum::Unsigned>::USIZE *)
@@ -149,7 +151,7 @@ Fixpoint subst (b : bind) (t : term) : term :=
   | Unwrap u => Unwrap (subst b u)
   | UnsafeBlk u => UnsafeBlk (subst b u)
   | MacroCall m kw s => MacroCall m kw (subst_seq b s)
-  | User _ _ _ | TyLen _ | ConstPath _ | TyParamN | CRef _ | Param | UnitLit => t
+  | User _ _ _ | TyLen _ | ConstPath _ | CfgOut _ | TyParamN | CRef _ | Param | UnitLit => t
   end
 with subst_seq (b : bind) (s : tseq) : tseq :=
   match s with
@@ -215,7 +217,7 @@ Fixpoint map_calls (h : mname -> Z -> tseq -> term) (t : term) : term :=
   | LocalFn k p fb body => LocalFn k (map_calls h p) (map_calls h fb) (map_calls h body)
   | Unwrap u => Unwrap (map_calls h u)
   | UnsafeBlk u => UnsafeBlk (map_calls h u)
-  | User _ _ _ | TyLen _ | ConstPath _ | MV _ | TyParamN | CRef _ | Param | UnitLit => t
+  | User _ _ _ | TyLen _ | ConstPath _ | CfgOut _ | MV _ | TyParamN | CRef _ | Param | UnitLit => t
   end
 with map_calls_seq (h : mname -> Z -> tseq -> term) (s : tseq) : tseq :=
   match s with
@@ -252,7 +254,7 @@ Definition expand (d : decls) (m : mname) (i : input) : option term :=
    operations in it would be accepted silently, and the caller's own `unsafe { }` would be reported as unused. *)
 Fixpoint exposed (inu : bool) (t : term) : bool :=
   match t with
-  | User _ _ _ | ConstPath _ | MV _ => inu
+  | User _ _ _ | ConstPath _ | CfgOut _ | MV _ => inu
   | TyLen _ | TyParamN | CRef _ | Param | UnitLit => false
   | Usize ty => exposed inu ty
   | ConstLen n => exposed inu n
@@ -415,6 +417,9 @@ Fixpoint eval (d : decls) (w : world) (cx : ctx) (e : env) (t : term) (lg : list
       | Const => if c then Done (VE v, lg) else CompileError ENotConst
       end
   | ConstPath k => Done (VE k, lg)
+  (* outside a list position an expression cannot be removed ("removing an expression is not supported in this
+     position") *)
+  | CfgOut _ => CompileError EType
   | TyLen _ | ConstLen _ | TyParamN => CompileError EType
   | MV _ | MacroCall _ _ _ => CompileError EUnexpanded
   | Usize ty => do k <- eval_ty d w e ty; Done (VE k, lg)
@@ -486,6 +491,7 @@ with eval_seq (d : decls) (w : world) (cx : ctx) (e : env) (s : tseq) (lg : list
     {struct s} : mres (list value * list lev) :=
   match s with
   | SNil => Done ([], lg)
+  | SCons (CfgOut _) r => eval_seq d w cx e r lg      (* the element is compiled out: not there, not evaluated *)
   | SCons t r =>
       do (v, lg1) <- eval d w cx e t lg;
       do (vs, lg2) <- eval_seq d w cx e r lg1;
